@@ -190,6 +190,15 @@ func (c *nonceCache) seenOnce(nonce string, signedAt time.Time, tolerance time.D
 	defer c.mu.Unlock()
 
 	now := c.now().UTC()
+	// The caller checked the timestamp against an earlier clock reading. Entries
+	// are expired against this one, so the timestamp has to be inside the window
+	// at this reading too: otherwise a replay arriving at timestamp+tolerance
+	// passes the caller's check and finds its nonce expired a moment later.
+	if tolerance > 0 {
+		if d := now.Sub(signedAt); d < -tolerance || d > tolerance {
+			return false
+		}
+	}
 	if tolerance > c.tolerance {
 		if len(c.m) > 0 || c.tolerance > 0 {
 			// A reload raised the tolerance. Whatever was honoured with a
